@@ -150,10 +150,14 @@ def check_heading_slug_func(
             module_path, function_name = value.rsplit(".", 1)
             mod = import_module(module_path)
             value = getattr(mod, function_name)
-        except ImportError as exc:
+        except (ImportError, AttributeError, ValueError) as exc:
+            # (no such module / no such attribute of the module / a string without a dot)
             raise TypeError(
                 f"'{field.name}' could not be loaded from string: {value!r}"
             ) from exc
+        if not callable(value):
+            raise TypeError(f"'{field.name}' is not callable: {value!r}")
+        # (only a valid value is stored)
         setattr(inst, field.name, value)
     if not callable(value):
         raise TypeError(f"'{field.name}' is not callable: {value!r}")
